@@ -28,9 +28,16 @@ pub struct Partial {
     pub samples: Vec<String>,
     pub violations: Vec<Violation>,
     pub internal_errors: Vec<String>,
+    /// Number of cases executed (a case may bundle several library calls).
+    pub cases: u64,
 }
 
 impl Partial {
+    #[inline]
+    pub fn bump_cases(&mut self) {
+        self.cases += 1;
+    }
+
     pub fn bump(&mut self, key: &str, n: u64) {
         if let Some(v) = self.hist.get_mut(key) {
             *v += n;
@@ -52,14 +59,23 @@ impl Partial {
         }
     }
 
+    /// Merge without the global caps being applied to violations found by the same job twice.
+    pub fn merge_all(&mut self, o: Partial) {
+        self.merge(o);
+    }
+
     pub fn merge(&mut self, o: Partial) {
         self.evaluations += o.evaluations;
         self.distinct += o.distinct;
+        self.cases += o.cases;
         for (k, v) in o.hist {
             *self.hist.entry(k).or_insert(0) += v;
         }
-        for s in o.samples {
-            self.add_sample(s);
+        self.samples.extend(o.samples);
+        if self.samples.len() > MAX_SAMPLES {
+            // deterministic, but spread over jobs: keep the samples with the smallest text hash
+            self.samples.sort_by_key(|s| fnv(s));
+            self.samples.truncate(MAX_SAMPLES);
         }
         for v in o.violations {
             if self.violations.len() < MAX_VIOLATIONS {
@@ -75,6 +91,7 @@ impl Partial {
         let mut out = Vec::new();
         put_u64(&mut out, self.evaluations);
         put_u64(&mut out, self.distinct);
+        put_u64(&mut out, self.cases);
         put_u64(&mut out, self.hist.len() as u64);
         for (k, v) in &self.hist {
             put_str(&mut out, k);
@@ -99,7 +116,7 @@ impl Partial {
 
     pub fn deserialize(buf: &[u8]) -> Option<Partial> {
         let mut r = Reader { b: buf, p: 0 };
-        let mut p = Partial { evaluations: r.u64()?, distinct: r.u64()?, ..Default::default() };
+        let mut p = Partial { evaluations: r.u64()?, distinct: r.u64()?, cases: r.u64()?, ..Default::default() };
         for _ in 0..r.u64()? {
             let k = r.str()?;
             let v = r.u64()?;
@@ -125,6 +142,14 @@ impl Partial {
         }
         Some(p)
     }
+}
+
+fn fnv(s: &str) -> u64 {
+    let mut h = 0xcbf2_9ce4_8422_2325u64;
+    for b in s.bytes() {
+        h = (h ^ b as u64).wrapping_mul(0x0000_0100_0000_01b3);
+    }
+    h
 }
 
 fn put_u64(out: &mut Vec<u8>, v: u64) {
@@ -264,6 +289,7 @@ impl Report {
             ("seed", self.seed.to_string()),
             ("build", build),
             ("evaluations", self.body.evaluations.to_string()),
+            ("cases", self.body.cases.to_string()),
             ("distinct_nontrivial", self.body.distinct.to_string()),
             ("rule", json_str(&self.rule)),
             ("elapsed_ms", self.elapsed_ms.to_string()),
